@@ -25,7 +25,7 @@ theorem hp_item_fields_src : hp_item_fields = "matched,host" := by decide
 theorem hp_hit_rebuild_src : hp_hit_rebuild_args = "req, item.matched, fam" := by decide
 /-- Lookup, generation load, matching, guarded insertion — in this order. -/
 theorem hp_request_calls_src :
-    hp_request_calls = "f.itemFromCache,f.resCacheGen.Load,f.hashes.Matches,f.setInCache,f.setInCache" := by decide
+    hp_request_calls = "f.itemFromCache,f.resCacheGen.Load,f.hashes.MatchesAny,f.setInCache,f.setInCache" := by decide
 /-- `setInCache` skips the insertion when the generation has changed … -/
 theorem hp_set_conds_src : hp_set_conds = "f.resCacheGen.Load() != gen" := by decide
 /-- … and compares and inserts under the read lock. -/
